@@ -34,7 +34,7 @@ ASSUMPTIONS = [
     "semantics per vf/sem.py",
 ]
 BUDGET = {
-    "quick": dict(examples=600, shards=16, seconds=200),
+    "quick": dict(examples=1500, shards=16, seconds=200),
     "thorough": dict(examples=12000, shards=16, seconds=2400),
 }
 OPS = ["mul", "div", "marginalize", "conditional", "frac_simplify", "sum_simplify", "chain_expand", "fraction_expand", "bayes_expand", "contract", "recursive_contract"]
